@@ -331,7 +331,8 @@ Lemma nosp_head l c t : civil_ok l c -> tok_nosp_ok t = true ->
 Proof.
   intros Hc Hn H1 H2 r. pose proof (render_in_tvals l c t Hc) as Hin.
   assert (F : forallb (fun w => match w with b :: _ => negb (byte_eqb b x20) | [] => false end) (tvals t) = true).
-  { destruct t as [k i|b|n]; [destruct k; try exact Hn; elim (H1 i); reflexivity|exact Hn|elim (H2 n); reflexivity]. }
+  { unfold tok_nosp_ok in Hn. apply orb_true_iff in Hn as [Hn|Hn]; [|exact Hn].
+    destruct t as [k i|b|n]; [destruct k; try discriminate Hn; elim (H1 i); reflexivity|discriminate Hn|elim (H2 n); reflexivity]. }
   rewrite forallb_forall in F. specialize (F _ Hin). destruct (render_tok t c) as [|b w]; [discriminate|].
   cbn [app]. apply cut_sp_nosp. apply negb_true_iff. exact F.
 Qed.
